@@ -71,6 +71,29 @@ class Facts:
         for it in self.items.values():
             self.by_qname.setdefault(it.qname, []).append(it)
         self._callgraph = None
+        mono = self.raw.get("mono") or {"instances": [], "calls": []}
+        self.instances = mono["instances"]
+        self.inst_calls = {}
+        for c in mono["calls"]:
+            per = {}
+            for b in c["bodies"]:
+                per[b["body"]] = {e[0]: (e[1], e[2]) for e in b["calls"]}
+            self.inst_calls[c["inst"]] = per
+        self.insts_by_def = {}
+        for i, x in enumerate(self.instances):
+            self.insts_by_def.setdefault(x["def"], []).append(i)
+
+    def instances_of(self, item, args_contains=None):
+        """Monomorphic instances (ids) of a function that the crate itself uses."""
+        key = item.key if isinstance(item, Item) else item
+        ids = self.insts_by_def.get(key, [])
+        if args_contains is not None:
+            ids = [i for i in ids if any(args_contains in a for a in self.instances[i]["args"])]
+        return ids
+
+    def default_instance(self, key):
+        ids = self.insts_by_def.get(key, [])
+        return ids[0] if len(ids) == 1 else None
 
     # ---- naming -------------------------------------------------------------------------------
     def _qname(self, it):
